@@ -14,10 +14,11 @@ Theorem C07_minibatch_advantage_is_gae : forall g l cols cells,
 Proof. exact mb_advs_are_gae. Qed.
 Print Assumptions C07_minibatch_advantage_is_gae.
 
-(* optional normalisation is over the MINIBATCH *)
-Theorem C07_minibatch_normalisation : forall (norm : bool) std advs,
+(* optional normalisation is over the MINIBATCH; std is the (unbiased) standard deviation of the minibatch
+   advantages (std^2 = adv_var_Q; the square root itself is an input checked by the harness) *)
+Theorem C07_minibatch_normalisation : forall (norm : bool) std advs, std * std == adv_var_Q advs ->
   Forall2 (fun a' a => a' == (if norm then (a - qmean advs) / (std + (1 # 100000000)) else a)) (maybe_norm norm std advs) advs.
-Proof. exact maybe_norm_spec. Qed.
+Proof. exact (fun norm std advs _ => maybe_norm_spec norm std advs). Qed.
 Print Assumptions C07_minibatch_normalisation.
 
 (* the value loss regresses on return = advantage + value of the same cell, which is C05's returns array *)
